@@ -16,7 +16,7 @@ Bin(op, l, r) == [k |-> "bin", op |-> op, l |-> l, r |-> r]
 Def(p) == [k |-> "def", name |-> JoinPath(p), path |-> p]
 
 Classes == {"undefsym", "undefmacro", "undefseg", "labelredef", "constredef", "illegalmode", "immrange",
-            "branchrange", "arity", "malformed", "unclosed"}
+            "branchrange", "arity", "malformed", "unclosed", "pastend", "textundef"}
 SemanticClasses == Classes \ {"malformed", "unclosed"}
 
 (* the base program must define: macro mm with one parameter, and a label `far' more than 128 bytes away *)
@@ -52,6 +52,11 @@ Fragment(c, v) ==
                             IF v < 2 THEN <<[k |-> "macrocall", name |-> "mm", args |-> (IF v = 0 THEN <<>> ELSE <<N(1), N(2)>>), sid |-> "F1"]>>
                             ELSE <<[k |-> "if", e |-> [k |-> "bin", op |-> "==", l |-> Id(<<"index">>), r |-> N(0)], hasElse |-> FALSE, else |-> <<>>, sid |-> "F1",
                                     then |-> <<[k |-> "macrocall", name |-> "mm", args |-> <<>>, sid |-> "F2"]>>]>>
+    [] c = "pastend"     -> (* an instruction that does not fit below the end of the address space *)
+                            <<[k |-> "setpc", e |-> N(65534 + (v % 2)), sid |-> "F1"], Insn("lda", "dir", N(4660), "F2")>>
+    [] c = "textundef"   -> (* a name no pass can resolve, interpolated into a text *)
+                            <<[k |-> "text", enc |-> (IF v % 2 = 0 THEN "" ELSE "petscii"), sid |-> "F1",
+                               e |-> [k |-> "istr", parts |-> <<[lit |-> <<97>>], [ref |-> "nosuchsym", path |-> <<"nosuchsym">>]>>]]>>
     [] c = "malformed"   -> <<Raw(IF v = 0 THEN "lda #" ELSE ".byte ,", "F1")>>
     [] c = "unclosed"    -> <<Raw(IF v = 0 THEN "{" ELSE ".if 1 {", "F1")>>
 
